@@ -851,6 +851,13 @@ func buildDocPool(cfg Config) (*docPool, error) {
 		corpus.Doc{Name: "ttml-comma-times", Format: "ttml", Data: []byte(`<tt xmlns="http://www.w3.org/ns/ttml"><body><div><p begin="07:11:13,517" end="07:11:15,919">comma</p></div></body></tt>`)},
 		corpus.Doc{Name: "ttml-dot-times", Format: "ttml", Data: []byte(`<tt xmlns="http://www.w3.org/ns/ttml"><body><div><p begin="07:11:13.517" end="07:11:15.919">dot</p></div></body></tt>`)},
 		corpus.Doc{Name: "ssa-same-times", Format: "ssa", Data: []byte("[Script Info]\nTitle: t\n\n[Events]\nFormat: Marked, Start, End, Style, Name, MarginL, MarginR, MarginV, Effect, Text\nDialogue: Marked=0,7:11:13.51,7:11:15.91,Default,,0,0,0,,ssa\n")})
+	// one long line per document, below and above the line scanner's limit: what is accepted must not depend on
+	// what anybody read before (theme "longlines")
+	for _, f := range []string{"ssa", "srt", "vtt"} {
+		for _, L := range []int{40000, 70000} {
+			p.docs = append(p.docs, corpus.LongLine(f, 3, 1, "text", L))
+		}
+	}
 	// SSA documents that re-declare their columns half way through [Events] (first Format line as in nearly every file)
 	// (part of corpus.Fixed, together with WebVTT header lines, an STL file ending in a dangling diacritic, ...)
 	p.docs = append(p.docs, corpus.Fixed()...)
@@ -913,7 +920,7 @@ func genTask(r *prng.R, pool *docPool, idx int, theme string) TaskProg {
 	if theme != "" && theme != "writers" && theme != "files" && theme != "missing" && theme != "samefile" { // themed scenario: every task works on the same format (different documents)
 		var same []corpus.Doc
 		for _, x := range pool.docs {
-			if x.Format == theme || (theme == "utf16" && strings.Contains(x.Name, "~utf16")) || (theme == "times" && strings.HasSuffix(x.Name, "-times")) {
+			if x.Format == theme || (theme == "utf16" && strings.Contains(x.Name, "~utf16")) || (theme == "times" && strings.HasSuffix(x.Name, "-times")) || (theme == "longlines" && strings.HasPrefix(x.Name, "longline-")) {
 				same = append(same, x)
 			}
 		}
@@ -1028,7 +1035,7 @@ func genScenario(root *prng.R, pool *docPool, j int, lim c20Limits) C20Scenario 
 	sc := C20Scenario{Seed: r.Uint64(), Policy: r.Pick("uniform", "rr", "burst", "starve0"), Mean: float64(r.PickInt(1, 2, 5, 20, 100, 1000))}
 	// swarm: a third of the scenarios are themed (all tasks on one format, so that the same functions and
 	// tables are in use by several tasks at once), some are "writer storms" (all tasks write the same formats)
-	theme := r.Pick("", "", "", "", "ts", "ts", "stl", "vtt", "srt", "ssa", "ttml", "writers", "writers", "files", "missing", "samefile", "utf16", "times")
+	theme := r.Pick("", "", "", "", "ts", "ts", "stl", "vtt", "srt", "ssa", "ttml", "writers", "writers", "files", "missing", "samefile", "utf16", "times", "longlines")
 	fileExt := r.Pick("srt", "vtt", "ssa", "stl", "ttml")
 	storm := []string{api.WriterFormats[r.Intn(len(api.WriterFormats))], api.WriterFormats[r.Intn(len(api.WriterFormats))]}
 	var all []int
